@@ -163,7 +163,11 @@ func (r *Recorder) Sample(kind string, v any) {
 func (r *Recorder) Rule(s string) { r.mu.Lock(); r.rules = append(r.rules, s); r.mu.Unlock() }
 
 // Assume appends to assumptions.
-func (r *Recorder) Assume(s string) { r.mu.Lock(); r.assumptions = append(r.assumptions, s); r.mu.Unlock() }
+func (r *Recorder) Assume(s string) {
+	r.mu.Lock()
+	r.assumptions = append(r.assumptions, s)
+	r.mu.Unlock()
+}
 
 // Extra sets an extra coverage key.
 func (r *Recorder) Extra(k string, v any) { r.mu.Lock(); r.extra[k] = v; r.mu.Unlock() }
